@@ -181,7 +181,14 @@ def gen_routine_directed(rng, dt, n=None):
     psd = lambda m: gen_invertible(rng, 0, dt, m, True, ["Dense"])  # noqa: E731
     chol = lambda m: {"k": "Routine", "fn": "cholL", "alg": None, "arg": psd(m)}  # noqa: E731
     alg = S.pick(rng, [None, None, "Auto", "LU"])
-    form = S.pick(rng, ["tri", "tri", "chol-inv", "cholH-inv", "kron-tri", "bd", "perm", "prod", "inv-inv", "tri-T", "diag", "plu-U"])
+    form = S.pick(rng, ["tri", "tri", "chol-inv", "cholH-inv", "kron-tri", "bd", "perm", "prod", "inv-inv", "tri-T", "diag", "plu-U", "iter", "iter"])
+    if form == "iter":
+        # lazy inverses through the iterative solvers, run to convergence (their views solve the transposed / adjoint system)
+        if dt in ("f8", "c16") and rng.random() < 0.5:
+            return {"k": "Routine", "fn": "inv", "alg": "CG", "arg": psd(n)}
+        if dt in ("f8", "c16"):
+            return {"k": "Routine", "fn": "inv", "alg": "GMRES", "arg": gen_leaf(rng, n, dt, ["Dense"])}
+        form = "tri"
     if form == "tri":
         arg = tri(n)
     elif form == "chol-inv":
